@@ -170,4 +170,4 @@ def extra_checks(tier, seed):
         if swept != 16: fails.append('exhaustive sweep of the Linux getters did not complete (%d of 16 parts)' % swept)
     return {'failures': fails, 'evaluations': n + 5 * 2 ** 32, 'distinct': len(distinct) + 2 ** 32, 'exhaustive': True, 'samples': [{'linux': L[1], 'getters': ci[0].status if ci else None}], 'linux_tuples': n,
             'linux_exhaustive': 'LinkSpeed, MediumType, flags, MTU, ifType: all 2^32 values each'}
-EXPLORE = dict(ops=('frame',), mtu=True)
+EXPLORE = dict(domain='frames', ops=('frame',), mtu=True)
